@@ -149,6 +149,12 @@ FIXED = {
          [(0, 'rp', 2, 2), (1, 'rp', 2, 2)]),
         ('three-guarded', [('inv_set', 39, 1, 3, [inv(0, 4)]), ('aggs_set', 39, 1, 3, [2]), ('inv_put', 39, 1, 3, inv(0, 16))],
          [(0, 'rp', 1, 3), (1, 'rp', 1, 3), (2, 'rp', 1, 3)]),
+        # fault-assisted: request 0 loses the duplicate-key race for a NEW aggregate once (its transaction is rolled back and
+        # retried by wrap_db_retry); the competitor carrying the same generation can run before the retry
+        ('aggregate-retry-vs-competitor', [('aggs_set', 39, 3, 0, [5]), ('aggs_set', 39, 3, 0, [6])],
+         [(0, 'rp', 3, 0), (1, 'rp', 3, 0)], (0, 'INSERT INTO placement_aggregates', 1)),
+        ('aggregate-retry-vs-traits', [('aggs_set', 39, 1, 3, [1, 5]), ('traits_set', 39, 1, 3, [1])],
+         [(0, 'rp', 1, 3), (1, 'rp', 1, 3)], (0, 'INSERT INTO placement_aggregates', 1)),
     ],
     'C06': [
         ('wipe-vs-write', [('alloc_put', 39, cons(2, 1, [])), ('alloc_put', 39, cons(2, 1, [(1, [(0, 2)])]))],
@@ -186,7 +192,7 @@ def fixed_scenarios(pid):
              ('rp_create', 39, 2, 2, None), ('inv_set', 39, 2, 0, [inv(0, 8)]),
              ('traits_set', 39, 1, 1, [0]), ('aggs_set', 39, 1, 2, [1]),
              ('alloc_put', 39, cons(2, None, [(2, [(0, 1)])])), ('rp_create', 39, 3, 3, None)]
-    return [conc.Scenario(name, setup, reqs, guards) for name, reqs, guards in FIXED[pid]]
+    return [conc.Scenario(x[0], setup, x[1], x[2], fault=(x[3] if len(x) > 3 else None)) for x in FIXED[pid]]
 
 
 def known_pattern(scn, obs):
@@ -319,10 +325,11 @@ def run(pid, tier, out):
     model_ok = all(common.vo_fresh(d) for d in MODEL)
     disagreements = []
     corr_error = None
+    mcases = [c for c in cases if not c[0].fault]       # fault-assisted scenarios are oracle only (Model/Conc.v has no faults)
     if model_ok:
         try:
             disagreements = coqrun.check_sched_cases(
-                [(c[0].setup, c[0].requests, c[1], [o[0] for o in c[2]], c[3]) for c in cases],
+                [(c[0].setup, c[0].requests, c[1], [o[0] for o in c[2]], c[3]) for c in mcases],
                 workdir=os.path.join(common.WORK, 'sched_%s' % pid))
         except Exception as exc:
             corr_error = str(exc)[-800:]
@@ -354,7 +361,7 @@ def run(pid, tier, out):
         elif tie_broken:
             d0 = None
             if disagreements:
-                c = cases[disagreements[0]]
+                c = mcases[disagreements[0]]
                 d0 = {'scenario': c[0].to_json(), 'schedule': list(c[1]), 'impl_statuses': [o[0] for o in c[2]],
                       'impl_dump': c[3]}
             out.violation({'kind': 'correspondence-broken', 'stream': 'schedules', 'first_disagreement': d0,
@@ -377,7 +384,7 @@ def run(pid, tier, out):
                    'equal, stale and null generations); per scenario the targeted "one request entirely inside every gap of '
                    'another" schedules plus a depth-first enumeration of interleavings up to %d; a case = (scenario, executed '
                    'interleaving); all are distinct and non-trivial (at least two requests interleave)' % (len(scns), per_scn),
-           'samples': samples, 'traces_validated_against_impl': len(cases) - len(disagreements) if model_ok and not corr_error else 0,
+           'samples': samples, 'traces_validated_against_impl': len(mcases) - len(disagreements) if model_ok and not corr_error else 0,
            'model_impl_disagreements': len(disagreements), 'correspondence_error': corr_error,
            'outcome_histogram': {str(k): v for k, v in stats['outcomes'].most_common(12)},
            'op_histogram': dict(stats['ops']), 'known_finding_schedules': {'%s/%s' % k: v for k, v in known.items()}}
@@ -394,7 +401,7 @@ def replay(pid, path, out):
     from harness.checks_seq import tuple_op
     s = p['scenario']
     scn = conc.Scenario(s['name'], [tuple_op(o) for o in s['setup']], [tuple_op(o) for o in s['requests']],
-                        [tuple(g) for g in s['guards']])
+                        [tuple(g) for g in s['guards']], fault=(tuple(s['fault']) if s.get('fault') else None))
     obs, dump, trace, used = conc.run_schedule(scn, p['schedule'])
     for kind, text in my_oracle(pid, scn, obs, dump):
         if kind == p.get('check') and not (kind == 'nonserializable' and known_pattern(scn, obs)) \
